@@ -168,6 +168,27 @@ def make_pair(rng):
     return with_m, expanded, g
 
 
+def fixed_pairs():
+    """Hand-written pairs around argument scoping: an argument that mentions a parameter of the
+    calling macro (resolved through the caller's frame), a global of the same name as a parameter,
+    an argument whose name equals another parameter of the callee, three levels of nesting."""
+    d = "out int a = 5;\nout int b = 0;\nout int v = 100;\nout int x = 7;\nout int y = 9;\nhook h0;\n"
+    P = []
+    P.append((d + 'macro store(out dst, expr e) { dst = e; }\nmacro outer(out v, out w) { "x"; store(w, [v + 1]); "y"; }\nparser { outer(a, b); }\n',
+              d + 'parser { "x"; b = [a + 1]; "y"; }\n'))
+    P.append((d + 'macro store(out dst, expr e) { dst = e; }\nmacro outer(out src, out w) { "x"; store(w, [src + 1]); "y"; }\nparser { outer(a, b); }\n',
+              d + 'parser { "x"; b = [a + 1]; "y"; }\n'))
+    P.append((d + 'macro set2(out x, out y) { x = 1; y = 2; }\nmacro rev(out x, out y) { "q"; set2(y, x); }\nparser { rev(a, b); "z"; }\n',
+              d + 'parser { "q"; b = 1; a = 2; "z"; }\n'))
+    P.append((d + 'macro set2(out b, out a) { b = 1; a = 2; }\nparser { "q"; set2(a, b); "z"; }\n',
+              d + 'parser { "q"; a = 1; b = 2; "z"; }\n'))
+    P.append((d + 'macro m3(match p, out o) { p; o = [o + 1]; }\nmacro m2(match p, out o) { m3(p, o); m3((p "!"), o); }\nmacro m1(out v) { m2(/k+/, v); }\nparser { m1(b); ";"; }\n',
+              d + 'parser { /k+/; b = [b + 1]; (/k+/ "!"); b = [b + 1]; ";"; }\n'))
+    P.append((d + 'macro use(expr e, out o) { o = e; h0(); }\nmacro wrap(out x, out o) { "w"; use([x * 2 + y], o); }\nparser { wrap(a, b); "."; }\n',
+              d + 'parser { "w"; b = [a * 2 + y]; h0(); "."; }\n'))
+    return P
+
+
 def bad_call_programs(rng):
     """Wrong kind / wrong arity: must be diagnosed errors."""
     base = "out int i0;\nout str[4] s0;\nhook h0;\nfinishcode F0;\nyieldcode Y0;\n"
@@ -199,7 +220,11 @@ def work(job):
     from export import export_machine, Unsupported
     seed, k = job
     rng = random.Random(f"{seed}/c13/{k}")
-    with_m, expanded, g = make_pair(rng)
+    if k < 0:
+        with_m, expanded = fixed_pairs()[-k - 1]
+        g = None
+    else:
+        with_m, expanded, g = make_pair(rng)
     res = {"k": k, "with_macros": with_m, "expanded": expanded, "verdicts": None, "equiv": None, "viol": None}
     args = ["-O1", "-fyield-support"]
     a = compile_program(with_m, args, codegen=False)
@@ -229,7 +254,7 @@ def main():
     ck.lean_obligations("NmfuProps.C13", THEOREMS)
     n = 300 if ck.tier == "quick" else 5000
     with mp.Pool(min(14, os.cpu_count() or 4)) as pool:
-        results = pool.map(work, [(ck.seed, k) for k in range(n)], chunksize=8)
+        results = pool.map(work, [(ck.seed, k) for k in range(-len(fixed_pairs()), n)], chunksize=8)
     st = {"pairs": n, "both_accepted": 0, "both_rejected": 0, "equivalent": 0, "bad_calls": 0, "bad_calls_diagnosed": 0, "nested_calls": 0}
     distinct = set()
     for r in results:
